@@ -41,8 +41,12 @@ func TestReceiverSplit(t *testing.T) {
 			t.Skip("no group-by query drawn")
 		}
 		// groups that several series (hence several leaves) share matter here
-		if md := d.Metrics[q.Metric]; len(md.TagKeys) == 2 && rapid.IntRange(0, 9).Draw(t, "byZone") < 7 {
-			q.GroupBy = []string{"zone"}
+		if md := d.Metrics[q.Metric]; len(md.TagKeys) >= 2 && rapid.IntRange(0, 9).Draw(t, "byCoarseKey") < 7 {
+			// zone / dc have few values
+			q.GroupBy = []string{md.TagKeys[len(md.TagKeys)-1]}
+			if q.GroupBy[0] == "host" {
+				q.GroupBy = []string{md.TagKeys[0]}
+			}
 		}
 		if rapid.IntRange(0, 9).Draw(t, "wholeData") < 6 {
 			q.Cond, q.CondText, q.StartS, q.EndS = nil, "", -60, 420
